@@ -264,6 +264,22 @@ type cacheValue struct {
 	result     []any
 }
 
+// validHostName reports whether name can be put in a DNS query: at most 255
+// octets on the wire (253 characters), labels of 1 to 63 octets, and none of
+// the characters of URL or address syntax.
+func validHostName(name string) bool {
+	name = strings.TrimSuffix(name, ".")
+	if name == "" || len(name) > 253 || strings.ContainsAny(name, ":%/[]@ ") {
+		return false
+	}
+	for _, p := range strings.Split(name, ".") {
+		if len(p) == 0 || len(p) > 63 {
+			return false
+		}
+	}
+	return true
+}
+
 // Resolve uses DNS-over-HTTPS to resolve name.
 //
 // The name argument can be any of:
@@ -324,19 +340,10 @@ func (r *Resolver) Resolve(ctx context.Context, name string) (ResolveResult, err
 		}
 		return result, nil
 	}
-	// A domain name is at most 255 octets on the wire, i.e. 253 characters.
-	if len(strings.TrimSuffix(name, ".")) > 253 {
-		return result, ErrInvalidName
-	}
 	// What is left must be a host name: a port that did not parse, an
 	// address with a zone, or an empty label is not one.
-	if name == "" || strings.ContainsAny(name, ":%/[]@ ") {
+	if !validHostName(name) {
 		return result, ErrInvalidName
-	}
-	for _, p := range strings.Split(strings.TrimSuffix(name, "."), ".") {
-		if len(p) == 0 || len(p) > 63 {
-			return result, ErrInvalidName
-		}
 	}
 
 	if r.insecureUseGoResolver {
@@ -406,6 +413,11 @@ func (r *Resolver) Resolve(ctx context.Context, name string) (ResolveResult, err
 			}
 			if v.Priority == 0 {
 				// Follow aliases. RFC 9460 2.4.2
+				// Names taken from DNS data are no more trusted
+				// than the caller's.
+				if !validHostName(v.Target) {
+					return result, fmt.Errorf("%w: alias target of %s", ErrInvalidName, want)
+				}
 				want = v.Target
 				result.HTTPS = nil
 				continue
@@ -425,6 +437,9 @@ func (r *Resolver) Resolve(ctx context.Context, name string) (ResolveResult, err
 			continue
 		}
 		if len(h.Target) > 0 {
+			if !validHostName(h.Target) {
+				continue
+			}
 			if err := r.resolveTarget(ctx, h.Target, &result); err != nil {
 				continue
 			}
